@@ -894,10 +894,11 @@ impl<A: Zeroize + NewBytes + ResizableBytes + Lockable<A>> NewLockedFromSlice<A>
     fn from_slice_into_locked(
         src: &[u8],
     ) -> Result<Protected<Self, traits::ReadWrite, traits::Locked>, crate::error::Error> {
-        let mut res = Self::new_bytes().mlock()?;
-        res.resize(src.len(), 0);
-        res.as_mut_slice().copy_from_slice(src);
-        Ok(res)
+        // fill first, then lock: resizing a locked region cannot report a refused lock
+        let mut bytes = Self::new_bytes();
+        bytes.resize(src.len(), 0);
+        bytes.as_mut_slice().copy_from_slice(src);
+        Ok(bytes.mlock()?)
     }
 
     /// Returns a new locked byte array from `other`. Panics if sizes do not
